@@ -43,8 +43,12 @@ pub async fn resolve_list<'a, T: OutputType + 'a>(
                 }
             });
         }
+        // Wait for every item, then report the first error in index order.
         Ok(Value::List(
-            futures_util::future::try_join_all(futures).await?,
+            futures_util::future::join_all(futures)
+                .await
+                .into_iter()
+                .collect::<ServerResult<Vec<_>>>()?,
         ))
     } else {
         let mut futures = len.map(Vec::with_capacity).unwrap_or_default();
@@ -56,8 +60,12 @@ pub async fn resolve_list<'a, T: OutputType + 'a>(
                     .map_err(|err| ctx_idx.set_error_path(err))
             });
         }
+        // Wait for every item, then report the first error in index order.
         Ok(Value::List(
-            futures_util::future::try_join_all(futures).await?,
+            futures_util::future::join_all(futures)
+                .await
+                .into_iter()
+                .collect::<ServerResult<Vec<_>>>()?,
         ))
     }
 }
